@@ -31,12 +31,9 @@ KANI_DOMAIN = {
     'ready_ser': 'READY for every socket type, identity absent or 1..=3 symbolic octets',
 }
 
-# (regex on "<unit>::<fn>", counterexample harness)
-CEX_HARNESS = [
-    (r'^codec::encode_frame$', 'cex_encode_frame'),
-    (r'^codec::ZmqCodec::decode$', 'cex_decode'),
-    (r'^handshake::SocketType::compatible$', 'compat_table'),
-]
+# (regex on "<unit>::<fn>", counterexample harness): Kani cannot finish harnesses through the codec in useful time,
+# so no counterexample harness is registered for Verus obligations; Kani failures are replayed with concrete playback
+CEX_HARNESS = []
 
 MSG_FNS = r'^ZmqMessage::|ZmqMessage as '
 
